@@ -23,6 +23,10 @@ let step (r : t) (fields : string list) : t * fibop list =
   | None -> failwith "bad rib op"
 
 let want_nh (r : t) (nm : name) : string = string_of_nh (want_lookup r.rs nm)
+(* the next hops the registered routes require at exactly this prefix *)
+let want_entry (r : t) (nm : name) : string list =
+  List.map (fun (f, c) -> dec_of_n f ^ ":" ^ dec_of_n c) (fib_want r.rs nm)
+
 let want_listing (r : t) : string = canon_listing (fib_listing_string (Tables_model.want_listing r.rs))
 
 let string_of_route (x : route) : string =
